@@ -90,9 +90,8 @@ RestrictTo(gr, S) ==
 
 \* the application an invocation runs on: its graph (val = the values before any flag) and its header.
 \* dh = header of the document the first argument names when that is a document written by `new`
-View(P, inv, dh) ==
-    LET full == Graph(P)
-        saved == [full EXCEPT !.val = [n \in full.ids |-> IF P.cur[n + 1] >= 0 THEN P.cur[n + 1] ELSE P.def[n + 1]]]
+View(P, full, inv, dh) ==
+    LET saved == [full EXCEPT !.val = [n \in full.ids |-> IF P.cur[n + 1] >= 0 THEN P.cur[n + 1] ELSE P.def[n + 1]]]
         coded == RestrictTo([full EXCEPT !.val = [n \in full.ids |-> P.def[n + 1]]], Cone(full))
     IN CASE inv.gf = "graph" -> [gr |-> saved, hdr |-> P.hdr]
          [] inv.gf = "newdoc" -> [gr |-> HE!Empty, hdr |-> dh]
@@ -179,9 +178,10 @@ OutBlocked(F, cs) == Blocked(F, cs) \/ (Len(cs) > 1 /\ Join(SubSeq(cs, 1, Len(cs
 
 NoFile == [p |-> "", kind |-> "none", text |-> "", ents |-> {}]
 \* Plan: class, why, files written [p, kind, text, ents], directories that must exist afterwards, kind of App.Out
-Plan(P, F, inv, dh) ==
+\* (full = Graph(P), handed in so that it is computed once per history)
+PlanG(P, full, F, inv, dh) ==
     LET c == Canon(inv.cmd)
-        view == View(P, inv, dh)
+        view == View(P, full, inv, dh)
         gr == view.gr
         rej(why) == [class |-> "reject", why |-> why, files |-> {}, dirs |-> {}, out |-> "none", grE |-> gr, hdr |-> view.hdr, asg |-> <<>>]
     IN
@@ -191,10 +191,18 @@ Plan(P, F, inv, dh) ==
     ELSE IF inv.cmd # "" /\ inv.cmd \notin Commands THEN rej("unknown-command")
     ELSE IF ~ParsesFlags(c) THEN
         [class |-> "ok", why |-> "ok", files |-> {}, dirs |-> {}, out |-> "help", grE |-> gr, hdr |-> view.hdr, asg |-> <<>>]
-    ELSE IF Clash(P, gr, c) THEN [rej("flag-clash") EXCEPT !.class = "clash"]
     ELSE
-    LET ps == ParseFlags(KindOf(P, gr, c), inv.toks, 1, <<>>)
-        grE == WithFlags(P, gr, ps.asg)
+    LET pfn == ParamFlagNodes(P, gr)            \* (= the operators of the flags section, computed once)
+        names == {P.flag[n + 1] : n \in pfn}
+        clash == (\E n1, n2 \in pfn : n1 # n2 /\ P.flag[n1 + 1] = P.flag[n2 + 1]) \/ names \cap CmdFlags(c) # {}
+        kinds == [nm \in names \cup CmdFlags(c) |->
+                     IF nm \in CmdFlags(c) THEN 1 ELSE gr.type[CHOOSE n \in pfn : P.flag[n + 1] = nm]]
+    IN
+    IF clash THEN [rej("flag-clash") EXCEPT !.class = "clash"]
+    ELSE
+    LET ps == ParseFlags(kinds, inv.toks, 1, <<>>)
+        grE == [gr EXCEPT !.val = [n \in gr.ids |->
+                    IF n \in pfn /\ P.flag[n + 1] \in DOMAIN ps.asg THEN ps.asg[P.flag[n + 1]] ELSE gr.val[n]]]
         base == [class |-> "ok", why |-> "ok", files |-> {}, dirs |-> {}, out |-> "none", grE |-> grE, hdr |-> view.hdr, asg |-> ps.asg]
         outcs == IF "out" \in DOMAIN ps.asg THEN OutFiles[ps.asg["out"]].norm ELSE <<>>
         \* commands that write one document: to --out if given, else to App.Out
@@ -222,6 +230,7 @@ Plan(P, F, inv, dh) ==
       [] c = "new" -> one("new", "", {})
       [] c = "outline" -> [base EXCEPT !.out = "outline"]
       [] OTHER -> one(c, "", {})          \* mermaid, swagger
+Plan(P, F, inv, dh) == PlanG(P, Graph(P), F, inv, dh)
 
 \* the shape of the file system after an accepted invocation (generator side)
 ShapeAfter(F, pl) ==
